@@ -308,7 +308,10 @@ class Evaluator:
                     return Poly.const(round(cv))
                 if self.facts.is_integer(x):
                     return x
-                return self.atom(fn.split(".")[-1], x)
+                a = self.atom(fn.split(".")[-1], x)
+                if fn not in self.FLOATERS:
+                    self.facts.int_syms |= a.symbols()  # ceil/floor/round/int of anything is an integer
+                return a
             if fn in ("min", "max", "numpy.minimum", "numpy.maximum") and len(args) == 2:
                 a, b = self.ev(args[0]), self.ev(args[1])
                 ca, cb = a.const_value(), b.const_value()
@@ -318,7 +321,10 @@ class Evaluator:
                 if a == b:
                     return a
                 x, y = sorted([a, b], key=lambda p: p.canon())
-                return self.atom(nm, x, y)
+                r = self.atom(nm, x, y)
+                if self.facts.is_integer(x) and self.facts.is_integer(y):
+                    self.facts.int_syms |= r.symbols()
+                return r
             if fn in ("numpy.mod",) and len(args) == 2:
                 return self.ev(ast.BinOp(left=args[0], op=ast.Mod(), right=args[1]))
             if fn == "len" and len(args) == 1:
